@@ -23,6 +23,8 @@ def atoms_of_bool(t, truth):
     k = t[0]
     if k == "bin":
         op, a, b = t[1], t[2], t[3]
+        if not truth and op in ("Lt", "Le") and any(x[0] == "constx" and x[1] in ("f64", "f32") for x in (a, b)):
+            return [("false", t)]       # floating point: !(a < b) does not give b <= a (NaN)
         if op == "Lt":
             return [("lt", a, b)] if truth else [("le", b, a)]
         if op == "Le":
